@@ -61,4 +61,39 @@ import logging
 logging.disable(logging.CRITICAL)
 kept = t._create_rules_with_on_day_expansion(rules_map)
 admitted = sorted([list(k) for k, v in rej.items() if v[0] in kept])
-print(json.dumps({'n': n, 'bad': bad, 'nparse': np, 'parse_bad': parse_bad[:20], 'admitted': admitted, 'nexpr': len(rej)}))
+# the contract on expressions that leave the year too: month 0 / 13 (what the UNTIL filter relies on)
+contract = []
+for y in range(1873, 2127, 11):
+    for m in (1, 2, 11, 12):
+        for dow in range(1, 8):
+            for dom in list(range(-31, 0)) + list(range(1, 32)):
+                if abs(dom) > transformer._days_in_month(y, m):
+                    continue
+                try:
+                    r = calc_day_of_month(y, m, dow, dom)
+                except Exception as e:
+                    r = ('exception', str(e))
+                contract.append([y, m, dow, dom, list(r)])
+# the real UNTIL-day filter: eras whose UNTIL day is an expression; those that leave the year must be removed
+zones = {}
+until_cases = []
+for y in (2003, 2004, 2006, 2010, 2011):
+    for mname, m in (('Jan', 1), ('Dec', 12), ('Mar', 3)):
+        for dname_i, dname in enumerate(DAYS, 1):
+            for expr, dom in [('%s<=%d' % (dname, k), -k) for k in (1, 2, 3, 6, 7)] + [('%s>=%d' % (dname, k), k) for k in (25, 26, 29, 31)] + [('last' + dname, 0)]:
+                zn = 'U/%d_%s_%s' % (y, mname, expr.replace('<=', 'le').replace('>=', 'ge'))
+                zones[zn] = [{'offsetString': '1:00', 'rules': '-', 'format': 'TST', 'untilYear': y, 'untilYearOnly': False, 'untilMonth': m,
+                              'untilDayString': expr, 'untilTime': '2:00', 'untilTimeSuffix': 'w', 'rawLine': ''},
+                             {'offsetString': '2:00', 'rules': '-', 'format': 'UST', 'untilYear': 10000, 'untilYearOnly': True, 'untilMonth': 1,
+                              'untilDayString': '1', 'untilTime': '0', 'untilTimeSuffix': 'w', 'rawLine': ''}]
+                until_cases.append([zn, y, m, dname_i, dom])
+t2 = Transformer.__new__(Transformer)
+t2.all_removed_zones = {}
+t2.all_notable_zones = {}
+t2._print_removed_map = lambda *a, **k: None
+try:
+    kept_z = t2._create_zones_with_until_day(zones)
+    until = [[zn, y, m, dow, dom, zn in kept_z, (kept_z[zn][0].get('untilDay') if zn in kept_z else None)] for zn, y, m, dow, dom in until_cases]
+except Exception as e:
+    until = [['exception', str(e)]]
+print(json.dumps({'contract': contract, 'until': until, 'n': n, 'bad': bad, 'nparse': np, 'parse_bad': parse_bad[:20], 'admitted': admitted, 'nexpr': len(rej)}))
